@@ -841,4 +841,186 @@ Proof.
       - rewrite CE. simpl. rewrite Nat.eqb_refl. auto. }
     simpl. apply (iter_tail s p nx m b0 G); auto. apply HP. left; auto.
 Qed.
+
+Fixpoint takeL (stop calls : nat) (l : list nat) : list nat :=
+  match l with
+  | [] => []
+  | e :: t => if negb (Nat.eqb stop 0) && Nat.leb stop (S calls) then [e] else e :: takeL stop (S calls) t
+  end.
+
+Lemma takeL_spec : forall l stop c, (stop = 0 \/ c < stop) ->
+  takeL stop c l = match stop with 0 => l | _ => firstn (stop - c) l end.
+Proof.
+  induction l; simpl; intros.
+  - destruct stop; auto. destruct (S stop - c); auto.
+  - destruct H.
+    + subst. simpl. f_equal. rewrite IHl by auto. auto.
+    + destruct stop. lia. simpl negb. cbn [andb].
+      destruct (Nat.leb (S stop) (S c)) eqn:E.
+      * apply Nat.leb_le in E. replace (S stop - c) with 1 by lia. reflexivity.
+      * apply Nat.leb_gt in E. rewrite IHl by lia. replace (S stop - c) with (S (S stop - S c)) by lia. reflexivity.
+Qed.
+
+Definition kv_of (s : hstate) (id : nat) : key * val := kv (ent (h_heap s) id).
+
+Lemma foreach_loop_ok : forall R s p b0 fuel stop calls acc nacc, Good s ->
+  (match p with Some (cur, n) => deref (h_heap s) cur = Ok n /\ In cur (bucket s b0) | None => True end) ->
+  rem_of s p b0 = R -> length R < fuel ->
+  exists st' hi',
+    foreach_loop v_fixed fuel (parked_at s p) {| hi_node := option_map fst p; hi_bucket := b0 |} stop calls acc nacc =
+      Ok (st', hi', rev acc ++ map (kv_of s) (takeL stop calls R), nacc) /\
+    h_iter_free v_fixed st' hi' = Ok (s, []).
+Proof.
+  induction R; intros s p b0 fuel stop calls acc nacc G Hp HR Hf.
+  - destruct fuel. simpl in Hf. lia. simpl.
+    generalize (iter_next_core s p b0 G Hp). rewrite HR. intro E. rewrite E. simpl.
+    exists s, {| hi_node := None; hi_bucket := nb s |}. rewrite !app_nil_r. split; auto.
+  - destruct fuel. simpl in Hf. lia. cbn [foreach_loop].
+    generalize (iter_next_core s p b0 G Hp). rewrite HR. intros [b' [m [M1 [M2 [M3 E]]]]]. rewrite E. cbn [bind].
+    destruct (g_node _ G b' a M2) as [m' [N1 [N2 _]]]. rewrite M1 in N1. inversion N1; subst m'.
+    assert (KV : kv_of s a = (hn_key m, hn_val m)). { unfold kv_of. rewrite (deref_ent _ _ _ M1). reflexivity. }
+    cbn [takeL].
+    destruct (negb (Nat.eqb stop 0) && Nat.leb stop (S calls)) eqn:ST.
+    + exists (parked_at s (Some (a, m))), {| hi_node := Some a; hi_bucket := b' |}. split.
+      * rewrite app_nil_r. simpl. rewrite KV. reflexivity.
+      * unfold h_iter_free. simpl fx_iter_free. cbn [hi_node]. apply unpark; auto.
+    + destruct (IHR s (Some (a, m)) b' fuel stop (S calls) ((hn_key m, hn_val m) :: acc) (nacc ++ [])) as [st' [hi' [F1 F2]]]; auto.
+      simpl in Hf. lia.
+      exists st', hi'. split; auto. cbn [option_map fst] in F1. rewrite F1. rewrite app_nil_r. simpl. rewrite KV.
+      rewrite <- app_assoc. reflexivity.
+Qed.
+
+Lemma nodup_bounded_length : forall (l : list nat) n, NoDup l -> (forall x, In x l -> x < n) -> length l <= n.
+Proof.
+  intros. rewrite <- (seq_length n 0). apply NoDup_incl_length; auto. intros x Hx. apply in_seq. apply H0 in Hx. lia.
+Qed.
+
+Lemma step_foreach : forall rc s stop, Good s -> step_ok rc s (Foreach stop).
+Proof.
+  intros rc s stop G. destruct rc as [[e1 e2] e3]. unfold step_ok, h_step, a_step. simpl. rewrite (g_alive _ G). simpl.
+  unfold h_foreach.
+  assert (R0 : rem_of s None 0 = linked s).
+  { unfold rem_of, cands_of, bucket, linked. generalize (g_nb _ G). unfold nb. intro. rewrite (concat_split (h_buckets s) 0) by auto. reflexivity. }
+  assert (LEN : length (linked s) < S (S (length (h_heap s)))).
+  { generalize (nodup_bounded_length (linked s) (length (h_heap s)) (g_nodup _ G) (fun x Hx => linked_lt s x G Hx)). lia. }
+  destruct (foreach_loop_ok (linked s) s None 0 (S (S (length (h_heap s)))) stop 0 [] [] G I R0 LEN) as [st' [hi' [F1 F2]]].
+  simpl parked_at in F1. simpl option_map in F1. unfold h_iter_create. rewrite F1. cbn [bind]. rewrite F2. cbn [bind].
+  eexists s, _, (OEntries (take_stop stop (live_kv (abs s)))), _. split; [reflexivity|]. split; [reflexivity|]. split; [|split; auto].
+  simpl. f_equal. rewrite takeL_spec by (destruct stop; [left; auto | right; lia]).
+  unfold live_kv. rewrite live_abs by auto. simpl. unfold kv_of. rewrite <- map_map.
+  destruct stop; simpl; auto. destruct (linked s); simpl; auto. rewrite !firstn_map. reflexivity.
+Qed.
+
+(* ---------- any operation that is not an iterator operation; whole histories ---------- *)
+Theorem hash_step_ok : forall rc s o, Good s -> is_iter_op o = false -> step_ok rc s o.
+Proof.
+  intros. destruct o; try discriminate.
+  - apply step_put; auto.
+  - apply step_get; auto.
+  - apply step_rm; auto.
+  - apply step_count; auto.
+  - apply step_foreach; auto.
+  - apply step_notify_add; auto.
+  - apply step_notify_del; auto.
+  - apply step_destroy; auto.
+Qed.
+
+Lemma dead_step : forall rc s o NB, h_alive s = false ->
+  h_step v_fixed hf rc s o = Ok (s, OIgnored, []) /\ a_step (hbefore NB) (rc4 rc) (abs s) o = (abs s, OIgnored, []).
+Proof.
+  intros. destruct rc as [[e1 e2] e3]. unfold h_step, a_step. simpl. rewrite H. simpl. auto.
+Qed.
 End HR.
+
+(* ---------- C17 for the pointer-level hashtable model ---------- *)
+(* the pointer-level model and the dictionary specification in lock step; the specification's traversal order is
+   the model's bucket-major order (each present key exactly once: C17_traversal), counts are compared modulo
+   2^64 (size_t) *)
+Fixpoint b_lockstep (hf : key -> N) (rc : Z * Z * Z) (s : hstate) (sp : sstate) (ops : list op) : Prop :=
+  match ops with
+  | [] => True
+  | o :: t =>
+    match h_step v_fixed hf rc s o with
+    | Err _ => False
+    | Ok (s', x, ns) =>
+      let '(sp', x', ns') := spec_step (fl_of (rc4 rc) (abs s)) sp o in
+      x = out_wrap x' /\ ns = ns' /\ b_lockstep hf rc s' sp' t
+    end
+  end.
+
+Lemma good_create : forall hf m, Good hf (h_create m) /\ abs (h_create m) = r_init.
+Proof.
+  intros. assert (L : linked (h_create m) = []) by (unfold linked, h_create; simpl; apply concat_repeat_nil).
+  split.
+  - constructor; simpl; auto.
+    + unfold nb. simpl. rewrite repeat_length. assert (2 ^ order_of m <> 0) by (apply Nat.pow_nonzero; lia). lia.
+    + rewrite L. constructor.
+    + intros b id Hid. exfalso. unfold bucket in Hid. simpl in Hid.
+      assert (In id (concat (repeat [] (2 ^ order_of m)))). { apply in_concat_nth. exists b. auto. }
+      rewrite concat_repeat_nil in H. contradiction.
+    + rewrite L. constructor.
+    + rewrite L. reflexivity.
+  - unfold abs. rewrite L. reflexivity.
+Qed.
+
+Theorem hash_c17_from : forall hf rc ops s sp,
+  (Good hf s \/ h_alive s = false) -> Inv17 (abs s) sp -> no_iter_ops ops = true -> b_lockstep hf rc s sp ops.
+Proof.
+  induction ops; simpl; intros s sp HG HI HN; auto.
+  apply andb_true_iff in HN. destruct HN as [HN1 HN2]. apply negb_true_iff in HN1.
+  destruct HG as [HG|HD].
+  - destruct (hash_step_ok hf rc s a HG HN1) as [s' [x [x' [ns [E1 [E2 [E3 [E4 E5]]]]]]]]. rewrite E1.
+    generalize (step17 (hbefore hf (nb s)) (rc4 rc) (abs s) sp a HI HN1). rewrite E2.
+    destruct (spec_step (fl_of (rc4 rc) (abs s)) sp a) as [[sp' x''] ns'']. intros [Q1 [Q2 Q3]]. subst.
+    split; auto.
+  - destruct (dead_step hf rc s a (nb s) HD) as [E1 E2]. rewrite E1.
+    generalize (step17 (hbefore hf (nb s)) (rc4 rc) (abs s) sp a HI HN1). rewrite E2.
+    destruct (spec_step (fl_of (rc4 rc) (abs s)) sp a) as [[sp' x''] ns'']. intros [Q1 [Q2 Q3]]. subst.
+    split; auto.
+Qed.
+
+Theorem hash_c17 : forall hf rc max_size ops, no_iter_ops ops = true -> b_lockstep hf rc (h_create max_size) s_init ops.
+Proof.
+  intros. destruct (good_create hf max_size) as [G A]. apply hash_c17_from; auto. rewrite A. apply inv17_init.
+Qed.
+
+(* corollary: no history without caller-held iterators reaches an error state (use after free, out of bounds,
+   reference underflow, fuel) *)
+Lemma b_lockstep_no_error : forall hf rc ops s sp, b_lockstep hf rc s sp ops -> snd (h_run v_fixed hf rc s ops) = None.
+Proof.
+  induction ops; simpl; intros; auto. destruct (h_step v_fixed hf rc s a) as [[[s' x] ns]|e]; try contradiction.
+  destruct (spec_step (fl_of (rc4 rc) (abs s)) sp a) as [[sp' x'] ns']. destruct H as [_ [_ H]].
+  apply IHops in H. destruct (h_run v_fixed hf rc s' ops). simpl in *. auto.
+Qed.
+
+Theorem hash_c17_no_error : forall hf rc max_size ops, no_iter_ops ops = true ->
+  snd (h_run v_fixed hf rc (h_create max_size) ops) = None.
+Proof. intros. eapply b_lockstep_no_error. apply hash_c17; auto. Qed.
+
+(* in every state reached, a complete traversal (the specification's order used above) yields every present key once *)
+Fixpoint b_after (hf : key -> N) (rc : Z * Z * Z) (s : hstate) (sp : sstate) (ops : list op) : hstate * sstate :=
+  match ops with
+  | [] => (s, sp)
+  | o :: t =>
+    match h_step v_fixed hf rc s o with
+    | Err _ => (s, sp)
+    | Ok (s', _, _) => b_after hf rc s' (fst (fst (spec_step (fl_of (rc4 rc) (abs s)) sp o))) t
+    end
+  end.
+
+Theorem hash_c17_traversal : forall hf rc ops s sp,
+  (Good hf s \/ h_alive s = false) -> Inv17 (abs s) sp -> no_iter_ops ops = true ->
+  let s' := fst (b_after hf rc s sp ops) in let sp' := snd (b_after hf rc s sp ops) in
+  NoDup (map fst (live_kv (abs s'))) /\ forall k v, In (k, v) (live_kv (abs s')) <-> d_get (s_dict sp') k = Some v.
+Proof.
+  induction ops; simpl; intros s sp HG HI HN.
+  - apply ref_c17_traversal; auto.
+  - apply andb_true_iff in HN. destruct HN as [HN1 HN2]. apply negb_true_iff in HN1.
+    destruct HG as [HG|HD].
+    + destruct (hash_step_ok hf rc s a HG HN1) as [s' [x [x' [ns [E1 [E2 [E3 [E4 E5]]]]]]]]. rewrite E1.
+      generalize (step17 (hbefore hf (nb s)) (rc4 rc) (abs s) sp a HI HN1). rewrite E2.
+      destruct (spec_step (fl_of (rc4 rc) (abs s)) sp a) as [[sp' x''] ns'']. intros [Q1 [Q2 Q3]]. simpl. apply IHops; auto.
+    + destruct (dead_step hf rc s a (nb s) HD) as [E1 E2]. rewrite E1.
+      generalize (step17 (hbefore hf (nb s)) (rc4 rc) (abs s) sp a HI HN1). rewrite E2.
+      destruct (spec_step (fl_of (rc4 rc) (abs s)) sp a) as [[sp' x''] ns'']. intros [Q1 [Q2 Q3]]. simpl. apply IHops; auto.
+Qed.
